@@ -1,6 +1,6 @@
 (* One entry point for the correspondence check: numeric opcode + wire value. *)
 From WS Require Import Base.Py.
-From WS Require Folding.Model TP.Model Evaluate.Model Puddle.Model Separator.Model Dibs.Model Baseline.Model Prepare.Model Stats.Model Syll.Model AG.Model.
+From WS Require Folding.Model TP.Model Evaluate.Model Puddle.Model Separator.Model Dibs.Model Baseline.Model Prepare.Model Stats.Model Syll.Model AG.Model Dpseg.Model.
 
 Definition dispatch (op : Z) (j : J) : J :=
   match op with
@@ -31,5 +31,9 @@ Definition dispatch (op : Z) (j : J) : J :=
   | 1504 => AG.Model.run_setup_seed j
   | 1505 => AG.Model.run_emitted j
   | 1506 => AG.Model.run_grammar_phones j
+  | 301 => Dpseg.Model.run_next_chars j
+  | 302 => Dpseg.Model.run_bugfix j
+  | 303 => Dpseg.Model.run_folds j
+  | 304 => Dpseg.Model.run_segment_outputs j
   | _ => j_bad
   end%Z.
